@@ -43,15 +43,20 @@ def replay(path):
     print('property   :', rec.get('property'))
     print('obligation :', rec.get('obligation'))
     print('clause     :', rec.get('clause'))
-    print('recorded   : %s by %s' % (rec['solver'].get('verdict'), rec['solver'].get('name')))
-    if rec['solver'].get('model'): print('model      :', json.dumps(rec['solver']['model'], default=str)[:800])
+    solver = rec.get('solver') or {}
+    print('recorded   : %s by %s' % (solver.get('verdict'), solver.get('name')))
+    if solver.get('model'): print('model      :', json.dumps(solver['model'], default=str)[:800])
     status = 2
-    try:
-        still, info = _redecide(rec)
-    except SystemExit:
-        raise
-    except Exception as ex:
-        still, info = None, 'could not re-decide: %r' % ex
+    ob_ = str(rec.get('obligation') or '')
+    if ob_.startswith('witness:') or ob_.endswith(':goal-error'):
+        still, info = None, 'there is no obligation to re-decide: the failing input of this record comes from the witness driver'
+    else:
+        try:
+            still, info = _redecide(rec)
+        except SystemExit:
+            raise
+        except Exception as ex:
+            still, info = None, 'could not re-decide: %r' % ex
     print('re-decided :', info)
     if still is True: status = 1
     elif still is False: status = 0
